@@ -548,3 +548,102 @@ def oracle_instances(ctx: Ctx, budget):
 
 ORACLE_PARTS = [("sizes-past-block-boundaries", oracle_sizes), ("order-of-inputs", oracle_order), ("direct-precision-kinds", oracle_precision),
                 ("argument-changed-in-place", oracle_inplace), ("instances-alive-together", oracle_instances)]
+
+
+# -- elements without a tabulated Bragg-Slater radius (He, Ne, Ar, Kr, Xe, At, Rn): the default weights are Becke's formula with the documented
+#    fallback radius (Z-1, then Z-2), and preset grids keep the charge of sharp Gaussians on such nuclei --------------------------------------
+NANRADIUS_BODY = r"""
+from grid.utils import get_cov_radii
+KEY = P['key']
+zs = P['atnums']; co = np.array(P['coords'], dtype=float); n = len(zs)
+RAD = get_cov_radii(np.arange(1, 87), 'bragg')
+def radius(z):
+    # the documented rule: an element without a radius uses the one of Z-1 (of Z-2 if that is missing too)
+    for k in (z, z - 1, z - 2):
+        if not np.isnan(RAD[k - 1]): return float(RAD[k - 1])
+    raise AssertionError(f'{KEY} :: no Bragg-Slater radius for Z = {z}, {z - 1}, {z - 2}')
+def becke_ref(p, order):
+    # plain scalar loops: Becke's cell functions with the size adjustment (|alpha| <= 0.45) and `order` iterations of the switching polynomial
+    cell = []
+    for a in range(n):
+        prod = 1.0
+        for b in range(n):
+            if a == b: continue
+            mu = (math.dist(p, co[a]) - math.dist(p, co[b])) / math.dist(co[a], co[b])
+            u = (radius(zs[a]) - radius(zs[b])) / (radius(zs[a]) + radius(zs[b]))
+            al = max(-0.45, min(0.45, u / (u * u - 1.0)))
+            nu = mu + al * (1.0 - mu * mu)
+            for _ in range(order): nu = 1.5 * nu - 0.5 * nu ** 3
+            prod *= 0.5 * (1.0 - nu)
+        cell.append(prod)
+    tot = sum(cell)
+    return [c / tot for c in cell]
+# the reference itself: a partition of unity that gives a nucleus to its own atom
+for a in range(n):
+    w = becke_ref(co[a] + 1e-9, 3)
+    assert abs(sum(w) - 1) < 1e-12 and w[a] > 1 - 1e-6, f'{KEY} :: reference check'
+R0 = GaussLaguerre(P['nrad'])
+def grids():
+    out = []
+    for route in P['routes']:
+        for aim in P['aims']:
+            order = 3 if aim == 'default' else int(aim)
+            aw = None if aim == 'default' else BeckeWeights(order=order)
+            if route.startswith('preset:'):
+                pre = route.split(':')[1]
+                if any(z > 82 or 57 < z < 72 for z in zs): continue        # no default radial grid for these elements
+                m = MolGrid.from_preset(np.array(zs), co, pre, None, aw, rotate=P['rotate'], store=P['store'])
+            elif route == 'from_size':
+                m = MolGrid.from_size(np.array(zs), co, 26, R0, aw, rotate=P['rotate'], store=P['store'])
+            else:
+                hand = [AtomGrid(R0, degrees=[5], center=co[i], rotate=P['rotate']) for i in range(n)]
+                m = MolGrid(np.array(zs), hand, aw if aw is not None else BeckeWeights(order=3), store=P['store'])
+            out.append((route, aim, order, m))
+    return out
+for route, aim, order, m in grids():
+    what = f'{route} on atoms {zs} (elements without a tabulated radius: {[z for z in zs if np.isnan(RAD[z - 1])]}), aim weights {aim}'
+    aimw = np.asarray(m.aim_weights, dtype=float); ind = [int(x) for x in m.indices]
+    assert aimw.shape == (m.size,) and np.all(np.isfinite(aimw)) and np.array_equal(m.weights, m.atweights * aimw), f'{KEY} :: {what}: weights != atweights * aim_weights / aim weights not finite'
+    worst = (0.0, None)
+    for a in range(n):
+        seg = list(range(ind[a], ind[a + 1])); step = max(1, len(seg) // P['probe'])
+        near = ind[a] + int(np.argmin(np.linalg.norm(m.points[ind[a]:ind[a + 1]] - co[a], axis=1)))
+        for j in sorted(set(seg[::step] + [near, seg[-1]])):
+            w = becke_ref(m.points[j], order)
+            d = abs(w[a] - aimw[j])
+            if d > worst[0]: worst = (d, (j, a, w[a], float(aimw[j])))
+    assert worst[0] <= 1e-11, (f'{KEY} :: {what}: aim_weights[{worst[1][0]}] (a point of atom {worst[1][1]}) = {worst[1][3]!r}, Becke\'s formula with the '
+                               f'Bragg-Slater radii (fallback Z-1 for elements without one) gives {worst[1][2]!r}')
+    if route.startswith('preset:') and order == 3:       # the clause is about the default weights (order 1 alone misses ~1 % on the pinned tree)
+        for al in P['alphas']:
+            fv = sum((al / math.pi) ** 1.5 * np.exp(-al * ((m.points - c) ** 2).sum(axis=1)) for c in co)
+            err = abs(float(m.integrate(fv)) - n) / n
+            # measured on the pinned tree (coarse / medium, exponents 10 .. 30, molecules of He, Ne, Ar, Kr, Xe with H, C, O, F): <= 0.17 %
+            assert err <= 0.01, f'{KEY} :: {what}: normalised Gaussians with exponent {al} on every nucleus integrate {err:.2%} off the total charge {n}'
+"""
+
+
+def oracle_nanradius(ctx: Ctx, budget):
+    rng = ctx.rng
+    large = budget == "large" or ctx.thorough
+    noble = [2, 10, 18, 36, 54, 85, 86]
+    plain = [1, 6, 8, 9]
+    mols = [[z, z] for z in (noble if large else rng.sample(noble[:5], 2))]                  # homonuclear diatomics
+    mols += [[z, rng.choice(plain)] for z in (noble if large else rng.sample(noble, 2))]      # with an ordinary partner
+    mols += [[rng.choice(noble[:5]), rng.choice(plain), rng.choice(plain)], [rng.choice(noble[:3]), rng.choice(noble[:5]), rng.choice(plain), rng.choice(plain)]]
+    if large:
+        mols += [[2, 10, 18], [85, 8], [86, 1, 1]]
+    for zs in mols:
+        rng.shuffle(zs)
+        n = len(zs)
+        heavy = max(zs) >= 36
+        P = dict(key="molgrid.MolGrid:elements-without-tabulated-radius", atnums=zs, coords=_mol(ctx, n, dmin=1.5, box=2.5), nrad=rng.choice([4, 5]),
+                 rotate=rng.choice([0, 37]), store=rng.random() < 0.5,
+                 routes=(["preset:coarse"] if (heavy and not large) else ["preset:" + rng.choice(["coarse", "medium"])] if not large else ["preset:coarse", "preset:medium"])
+                 + [rng.choice(["from_size", "init"])] + (["from_size", "init"] if large else []),
+                 aims=["default"] + ([str(rng.choice([1, 2, 4]))] if not large else ["2", "3", "5"]), probe=12 if not large else 40,
+                 alphas=[10.0, 30.0] if not large else [10.0, 20.0, 30.0], seed=rng.randrange(2 ** 31))
+        _run(ctx, NANRADIUS_BODY, P, f"oracle:nan-radius-elements:{n}-atoms")
+
+
+ORACLE_PARTS = ORACLE_PARTS + [("elements-without-tabulated-radius", oracle_nanradius)]
